@@ -105,3 +105,59 @@ CHECKS["C08"] = {
         {"part": "step", "crate": "vgc", "bin": "c08_step", "budget_quick": 16, "budget_thorough": 600},
     ],
 }
+
+CHECKS["C07"] = {
+    "level": "model_checking",
+    "engine": "HIST (explicit-state search over call histories vs InMemory) + STEP",
+    "technique": "explicit-state enumeration of object-store call histories on both wrappers compared step by step with the reference InMemory store, plus exhaustive interleaving enumeration of concurrent callers per key",
+    "design_ref": "DESIGN.md 5/C07",
+    "text": "hist: histories CORE*.FULL over keys {a, a/b, c}: CORE = 72 ops (every put mode and token role, multipart complete/abort, every copy and rename pair in both modes incl. self and missing source, delete), FULL = 123 ops (plus every payload size around the chunk size and every multipart split); MetaStore and EncryptedStore at chunk sizes {1,7,16} (+64 KiB thorough); quick = depth 2 exhaustive + depth 3 from one representative of each of 400 distinct depth-2 states, thorough = depth 3 exhaustive, 4-5 with state dedup; after each history the read battery (get, head, every GetRange kind at every boundary, get_ranges, if_match/if_none_match lists and *, date conditions and their precedence, three listings) runs on the live (warm cache) and a fresh (cold cache) instance and must equal InMemory's result class and bytes; Update succeeds iff the token is the latest commit's, Create iff absent; no token value ever repeats across commits or keys (run-wide set). step: 13 scenarios x both wrappers of 2-3 concurrent callers on one key over a gated store, all schedules (preemption bound 3 quick / 8 thorough - the enumeration is complete, levels run empty at 6-8): answers + final content equal some serial order of atomic steps on InMemory (rename = copy then delete, as documented).",
+    "note": "Reference = object_store 0.14.1 InMemory with three counted normalisations (delete of a missing key, its self-rename, the error variant for Update without e_tag). Two recorded deviations (known findings): get_ranges past the end, double overtake NotFound. Not covered: GetOptions.version, attributes/tags, a second long-lived instance with a stale cache.",
+    "parts": [
+        {"part": "hist", "crate": "vstore", "bin": "c07_hist", "budget_quick": 40, "budget_thorough": 1100},
+        {"part": "step", "crate": "vstore", "bin": "c07_step", "budget_quick": 8, "budget_thorough": 200},
+    ],
+}
+
+CHECKS["C09"] = {
+    "level": "fault_enumeration",
+    "engine": "SCOPE (tamper-site enumeration) + HIST (leak/nonce scan)",
+    "technique": "exhaustive single-site tamper enumeration (every bit, truncation, extension, swap, pointer and CBOR field edit) against every read path of the real EncryptedStore; exhaustive history enumeration with a byte scan of everything the backend ever received",
+    "design_ref": "DESIGN.md 5/C09",
+    "text": "tamper: 24 scenarios (sizes {0,1,15,16,17,35} x {put, multipart, copy, rename} at chunk size 16; two generations of one key, a same-size and a different-size neighbour key): all 8 bit flips of every byte of every backend object, every truncation length, extensions, every chunk swap, every swap/replacement of payload objects across keys and generations, metadata swaps between keys, ~90 CBOR-level edits per metadata document (strip/zero each authentication field, re-point the generation); each site read through a fresh store (get, every boundary range, get_ranges, head, list; CBOR edits also in strict mode): every read returns exactly the original bytes/size or an error. leak: every history to depth 2 (thorough 3) of the C07 alphabet through EncryptedStore over a journalling store: no 8-byte plaintext window in any object version the backend ever received, every chunk opens under the harness's own AES-GCM with nonce n+index, no nonce is used for two different chunks in the whole run.",
+    "note": "Cryptographic strength of AES-GCM and RNG quality are assumptions. Single-site tampers only (multi-site are probes without verdict); chunk size 16; e_tag/last_modified in head/list are soft counters.",
+    "parts": [
+        {"part": "tamper", "crate": "vstore", "bin": "c09_tamper", "budget_quick": 30, "budget_thorough": 900},
+        {"part": "leak", "crate": "vstore", "bin": "c09_leak", "budget_quick": 8, "budget_thorough": 400},
+    ],
+}
+
+CHECKS["C12"] = {
+    "level": "fault_enumeration",
+    "engine": "HIST + CRASH over the real HnswIndex and the anda_db wrapper; recall over a declared seed set",
+    "technique": "exhaustive history enumeration and exhaustive flush-write-prefix enumeration on the real HNSW index against a brute-force nearest-neighbour model; recall floors over a declared finite seed set and every crash prefix of the persistence workload",
+    "design_ref": "DESIGN.md 5/C12",
+    "text": "hist: every history of <= 3 ops (thorough 4) over {insert a|b, remove, re-insert same/different vector, flush+load} on 7 vectors x 2 variants (incl. duplicate, opposite, zero), 4 metrics x 2 selection strategies x reconnect on/off x dims {2,8} plus a sweep over every dimension 2..64; after each history every stored and 3 out-of-distribution queries, k = 1..n+1, f32 and bf16 entry points: at most k results, distinct, live, distance-ordered, each distance equal to the metric recomputed in f64 from the documented formula, element count exact. crash: every prefix of the node/ids/metadata (and purge) writes of the final flush of every history to depth 2-3: the image loads, is sound immediately (old or new vector until the metadata write), after the database's recovery step (intent replay + repair scan transcription) and after a second flush+load. wrapper: the same through anda_db::index::Hnsw over Storage over the journalling store incl. purge_orphan_node_blobs. recall: the documented workloads of tests/recall.rs (generators and tie rule verbatim) per declared layer seed (quick {1,2}, thorough 1..16) hold their floors on fresh / deleted+re-inserted / reloaded indexes, and for the persistence workload at every one of the 594 crash prefixes of the incremental flush after re-indexing the 64 unflushed documents.",
+    "note": "Recall is a statistic: exhaustive only over the declared seed set and crash prefixes. Entry-point tie-breaks follow papaya's RandomState order (not controllable). Single-threaded index use; no nested crash during recovery of the vector index alone (C01 covers that at collection level).",
+    "parts": [
+        {"part": "hist", "crate": "vhnsw", "bin": "c12_hist", "budget_quick": 15, "budget_thorough": 900},
+        {"part": "crash", "crate": "vhnsw", "bin": "c12_crash", "budget_quick": 18, "budget_thorough": 500},
+        {"part": "recall", "crate": "vhnsw", "bin": "c12_recall", "budget_quick": 20, "budget_thorough": 300},
+        {"part": "wrapper", "crate": "vhnsw", "bin": "c12_wrapper", "budget_quick": 8, "budget_thorough": 300},
+    ],
+}
+
+CHECKS["C13"] = {
+    "level": "exploration",
+    "engine": "SCOPE (type grammar x boundary values x single mutations)",
+    "technique": "bounded-exhaustive enumeration of the FieldType grammar to depth 4, of boundary-covering valid values and of every single mutation of them, through both write entries and the stored CBOR form, against the documented validity contract",
+    "design_ref": "DESIGN.md 5/C13",
+    "text": "roundtrip: every FieldType to depth 2 (226 types), depth 3 (1,452 quick / 103,292 thorough) and depth 4 (1,330 / 8,962) incl. tuple and heterogeneous arrays, wildcard and keyed maps with Text/I64/Bytes keys; per type boundary-covering valid values and every single mutation (each node swapped with 27 alien values, array drop/append, each map key removed, extra keys, complexity budget at limit and limit+1), written by Document::set_field and by Document::try_from of a typed wrapper, validated, encoded to the stored CBOR, decoded, normalised by try_from_doc: accepted implies reads back valid and bit-equal in the declared variant (typed round trip equal), invalid implies rejected at write, nothing panics. derive: 11 AndaDBSchema structs + 3 FieldTyped structs + Resource covering every Rust type and attribute the macros infer, every boundary row round-tripped, 26 one-defect offers rejected. upgrade: all chains of <= 3 (thorough 4) upgrades over 3 top-level names and 2 nested keys in states absent / required T / Option(T) / Option(T'): every document written under every earlier version reads back under every permitted later version with unchanged surviving fields. collection: 1,678 shapes through Collection::add/get with zstd level 0 and 3, close, reopen, get.",
+    "note": "From depth 3 on only three valid values per type are mutated in quick (stated in the evidence). Json slots given non-Json variants and NaN in untyped arrays are neither required nor forbidden to be accepted; if accepted they must round-trip. The JSON (human-readable) read-back form, Arc/Rc fields and #[cbor(key)] are not covered. Two recorded defects (vector in an untyped slot; nested key re-added with another type).",
+    "parts": [
+        {"part": "roundtrip", "crate": "vschema", "bin": "c13_roundtrip", "budget_quick": 28, "budget_thorough": 900},
+        {"part": "derive", "crate": "vschema", "bin": "c13_derive", "budget_quick": 5, "budget_thorough": 60},
+        {"part": "upgrade", "crate": "vschema", "bin": "c13_upgrade", "budget_quick": 8, "budget_thorough": 400},
+        {"part": "collection", "crate": "vschema", "bin": "c13_collection", "budget_quick": 6, "budget_thorough": 200},
+    ],
+}
